@@ -29,19 +29,49 @@ pub fn generate_queries(
     samples
 }
 
-pub fn queries_to_points(queries: &[Felt], stark_domains: &StarkDomains) -> Vec<Felt> {
+pub fn queries_to_points(
+    queries: &[Felt],
+    stark_domains: &StarkDomains,
+) -> Result<Vec<Felt>, Error> {
     let mut points = Vec::<Felt>::new();
 
     // Evaluation domains of size greater than 2**64 are not supported
-    assert!((stark_domains.log_eval_domain_size) <= MAX_DOMAIN_SIZE);
+    ensure!((stark_domains.log_eval_domain_size) <= MAX_DOMAIN_SIZE, Error::DomainTooLarge);
 
     // A 'log_eval_domain_size' bits index can be bit reversed using bit_reverse_u64 if it is
     // multiplied by 2**(64 - log_eval_domain_size) first.
     let shift = Felt::TWO.pow_felt(&(MAX_DOMAIN_SIZE - stark_domains.log_eval_domain_size));
 
     for query in queries {
-        let index: u64 = (query * shift).to_bigint().try_into().unwrap();
+        let index: u64 =
+            (query * shift).to_bigint().try_into().map_err(|_e| Error::QueryOutOfRange)?;
         points.push(FIELD_GENERATOR * stark_domains.eval_generator.pow(index.reverse_bits()))
     }
-    points
+    Ok(points)
+}
+
+use swiftness_transcript::ensure;
+
+#[cfg(feature = "std")]
+use thiserror::Error;
+
+#[cfg(feature = "std")]
+#[derive(Error, Debug)]
+pub enum Error {
+    #[error("evaluation domains of size greater than 2**64 are not supported")]
+    DomainTooLarge,
+    #[error("query index outside the evaluation domain")]
+    QueryOutOfRange,
+}
+
+#[cfg(not(feature = "std"))]
+use thiserror_no_std::Error;
+
+#[cfg(not(feature = "std"))]
+#[derive(Error, Debug)]
+pub enum Error {
+    #[error("evaluation domains of size greater than 2**64 are not supported")]
+    DomainTooLarge,
+    #[error("query index outside the evaluation domain")]
+    QueryOutOfRange,
 }
